@@ -171,7 +171,7 @@ def worker(job):
 def main(chk, tier, seed):
     chk.rule = RULE
     chk.assumptions = ["CBC substituted for the missing glpsol binary", "symmetric communication loads", "at most one agent with an explicit cost 0 per computation, or default 0 everywhere"]
-    n = 400 if tier == "quick" else 8000
+    n = 640 if tier == "quick" else 8000
     common.run_chunked(chk, "c24", n, nchunks=16 if tier == "quick" else 64, timeout=3000)
     chk.inconclusive_if(chk.counters.get("optimum_compared", 0) < 60 and not chk.violations, "too few optimal distributions compared")
 
